@@ -62,3 +62,9 @@ def _f5(prop, case, violation):
 def _f8(prop, case, violation):
     # C-terminus whose OXT has more than one carbon within bonding distance (bond-list order decides which is used)
     return violation.get("sig") == "cterm-ambiguous-carbon"
+
+
+@predicate("F11")
+def _f11(prop, case, violation):
+    # hydrogens on an atom with exactly one heavy neighbour (computed from the input by the reference bond rule)
+    return violation.get("sig") == "free-rotamer"
